@@ -86,6 +86,22 @@ mod verif_kani_install_builder {
         check_remove::<10>(4);
     }
 
+    /// C19 (thorough; bounded: 17 files -> 16, first file removed)
+    #[kani::proof]
+    #[kani::unwind(34)]
+    #[kani::stub(std::collections::hash_map::RandomState::new, fixed_random_state)]
+    fn remove_file_17_first() {
+        check_remove::<17>(0);
+    }
+
+    /// C19 (thorough; bounded: 17 files -> 16, last file removed: the mask shrinks to two bytes)
+    #[kani::proof]
+    #[kani::unwind(34)]
+    #[kani::stub(std::collections::hash_map::RandomState::new, fixed_random_state)]
+    fn remove_file_17_last() {
+        check_remove::<17>(16);
+    }
+
     fn check_add<const NF: usize>() {
         let m: [u8; 3] = kani::any();
         let len = (NF + 7) / 8;
